@@ -12,7 +12,7 @@ LEVEL = "exploration"
 TECHNIQUE = "differential oracle (numba kernel vs numpy double sum on generated point sets) and invariant checks over every screening iteration of generated simulations, recorded by wrapping the documented get_induced_vector_potential; SI-unit recomputation of the Coulomb-kernel sum"
 RULE = (
     "kernel case = generated currents (both signs), positive areas, distinct site and edge point sets (5..80 points); run case = generated device in "
-    "the weak-to-moderate screening regime x field (static/ramped) x tolerance in [1e-4,1e-2] x Polyak step size/drag x optional small iteration cap, "
+    "the weak-to-moderate screening regime x field (static/ramped) x tolerance in [1e-4,1e-2] x Polyak step size/drag x optional small iteration cap x optional start from the saved state of an earlier (screened or unscreened, driven) run with the drive then kept or removed, "
     "every iteration of every step checked; non-trivial = a step with >= 2 screening iterations and max|A_induced| > 1e-6 (or a kernel case with "
     ">= 10 sites); distinct by spec hash"
 )
@@ -159,7 +159,7 @@ def _run(spec, res):
                       max_iterations_per_step=1000, dt_c=0.4, adaptive=False)
             try:
                 seed_solution = build.make_solver(dev, build.make_options(o0, dev, output_file="seed.h5"),
-                                                  applied_vector_potential=build.make_vector_potential(sd["field"], dev, opts.field_units),
+                                                  applied_vector_potential=build.make_vector_potential(sd["field"], dev, opts.field_units, opts.solve_time),
                                                   terminal_currents=build.make_currents(sd.get("currents"))).solve()
                 _ = seed_solution.tdgl_data
             except RuntimeError as exc:
@@ -173,7 +173,7 @@ def _run(spec, res):
                     return res
                 raise
         try:
-            solver = build.make_solver(dev, opts, applied_vector_potential=build.make_vector_potential(spec["field"], dev, opts.field_units),
+            solver = build.make_solver(dev, opts, applied_vector_potential=build.make_vector_potential(spec["field"], dev, opts.field_units, opts.solve_time),
                                        terminal_currents=build.make_currents(spec["currents"]), seed_solution=seed_solution)
         except ValueError as exc:
             if "does not contain any points" in str(exc):
